@@ -35,6 +35,8 @@ Inductive types_case :=
 | TPredEncode (p : predicate) (res : eres) (size : Z) (back : pres)
 | TNodeEdges (p : predicate) (results : list (option (list Z)))         (* node_edges(i), i = 0 .. n+1 *)
 | TWord (w : Z) (bytes : list Z) (back : Z)                             (* bytes_from_word, word_from_bytes *)
+| TWordSlice (bs : list Z) (w : Z)                                      (* word_from_bytes_slice: up to 8 bytes, left aligned, zero padded *)
+| THashWords (ws : list Z) (h : list Z) (hb : list Z)                   (* essential_hash::hash_words; hash_bytes of the same bytes *)
 | TWords4 (b32 : list Z) (ws : list Z) (back : list Z)                  (* word_4_from_u8_32, u8_32_from_word_4 *)
 | TWords8 (b64 : list Z) (ws : list Z) (back : list Z)
 | TAddrPredicate (p : predicate) (addr : list Z)
@@ -91,6 +93,8 @@ Definition types_mismatch (c : types_case) : bool :=
   | TPredEncode p r size _ => negb (eres_eqb (eres_of (encode_predicate p)) r && (predicate_encoded_size p =? size))
   | TNodeEdges p rs => negb (list_eqb optlist_eqb (map (node_edges p) (seq 0 (length (p_nodes p) + 2))) rs)
   | TWord w bytes back => negb (zlist_eqb (bytes_of_word w) bytes && (word_of_bytes bytes =? back))
+  | TWordSlice bs w => negb (word_of_bytes (firstn 8 (bs ++ repeat 0 8)) =? w)
+  | THashWords ws h _ => negb (zlist_eqb (sha256 (bytes_of_words ws)) h)
   | TWords4 b32 ws back => negb (zlist_eqb (words_of_bytes 4 b32) ws && zlist_eqb (bytes_of_words ws) back)
   | TWords8 b64 ws back => negb (zlist_eqb (words_of_bytes 8 b64) ws && zlist_eqb (bytes_of_words ws) back)
   | TAddrPredicate p a => negb (zlist_eqb (predicate_addr H p) a)
@@ -151,6 +155,8 @@ Definition types_spec_fail (c : types_case) : bool :=
                         end) (seq 0 (length (p_nodes p) + 2))))
   | TWord w bytes back => negb ((back =? w) && (length bytes =? 8)%nat
                                 && (be_val bytes =? w mod 18446744073709551616))
+  | TWordSlice bs w => negb ((w mod 18446744073709551616) =? be_val (firstn 8 (bs ++ repeat 0 8)))
+  | THashWords _ h hb => negb (zlist_eqb h hb)
   | TWords4 b32 ws back => negb (zlist_eqb back b32 && (length ws =? 4)%nat)
   | TWords8 b64 ws back => negb (zlist_eqb back b64 && (length ws =? 8)%nat)
   | TAddrPredicate p a =>
